@@ -18,6 +18,7 @@ COMMON_ASSUMPTIONS = [
     "i64 arithmetic does not overflow (known finding D10): the model uses unbounded Z",
 ]
 
+CACHE_RULE = "cache-level histories on the real %s driven one scheduling segment at a time by the baton scheduler (virtual clock, controllable cleanup ticker, recorded callbacks): after EVERY segment the result, the callbacks and a full snapshot (store entries with deadlines, expiry buckets, charges, used, max_cost, sketch rows, doorkeeper words, get-ring, buffer and queue lengths, metrics, closed flags) are compared with the Coq model; hash-map iteration orders and select! arms are reported by the implementation and checked for legality by the model; "
 PROPS = {
     'C01': {
         'suites': [('policy', 600, 6000, '')],
@@ -42,5 +43,53 @@ PROPS = {
         'rule': "Bloom filters for capacities 1..20000 and target rates 0.5..0.001 (and explicit probe counts), hashes random / differing only in high bits / only in low bits / near 2^64, adds, contains, contains_or_add, reset, clear; sizes, exponent, probe count, shift and the raw words compared with the model after every step; monitor: no false negative; plus a seeded false-positive measurement on the implementation (27 configurations x 20000 probes)",
         'assumptions': COMMON_ASSUMPTIONS + ["little-endian byte order (the Rust code addresses bytes inside u64 words)", "Bloom sizing goes through f64 ln/powf/ceil: the harness recomputes (entries, locs) with the same operations and the model checks get_size and the allocated words against them"],
         'partial': "the false-positive-rate clause is decided by the structural theorems (bits are addressed injectively, add sets exactly the probe positions, contains checks exactly them, the array is the smallest power of two >= the design size) plus a deterministic measurement on the implementation with well-mixed hashes (alarm threshold 10 p + 0.01); a probabilistic theorem about seahash is out of reach",
+    },
+    'C03': {
+        'suites': [('cacheq', 300, 3000, ''), ('cachet', 150, 1500, ''), ('cacheqa', 100, 1000, '')],
+        'rule': CACHE_RULE % "Cache and AsyncCache" + "TTLs from {1 ns, 0.5 s, 999 999 999 ns, 1 s, 1 s + 1 ns, 1.5 s, 2.3 s, 59 s, 1 h}, clock advances that land on and around second boundaries, re-inserts switching TTL <-> none, neighbours sharing expiry seconds; monitors: nothing served at or after created+ttl, get_ttl = remaining, no-TTL entries always served; non-trivial = every case (>= 20 operations with quiescence between them)",
+        'assumptions': COMMON_ASSUMPTIONS + ["the clock is monotone (elapsed().unwrap() panics otherwise; modelled as StepPanic)", "created + d < 2^64 ns"],
+        'partial': "",
+    },
+    'C05': {
+        'suites': [('cacheq', 300, 3000, ''), ('cachet', 150, 1500, ''), ('cacheqa', 100, 1000, '')],
+        'rule': CACHE_RULE % "Cache and AsyncCache" + "ticks at arbitrary (late, irregular) virtual times, expiry instants around second boundaries, neighbours in the same bucket being updated / removed / re-TTL'd; monitors: after a tick at T nothing with bucket <= T is resident, only expired entries are swept, each swept value is reported once with its charged cost",
+        'assumptions': COMMON_ASSUMPTIONS + ["the real ticker (crossbeam tick / async-io Timer) firing is runtime behaviour: ticks are labels here"],
+        'partial': "the invariant 'every resident TTL entry is listed under its storage bucket' is tied by the correspondence (buckets are part of every compared snapshot), not yet a Coq theorem; the real-time firing of the ticker is not modelled",
+    },
+    'C09': {
+        'suites': [('cachet', 300, 3000, ''), ('cacheq', 100, 1000, ''), ('cacheqa', 100, 1000, '')],
+        'rule': CACHE_RULE % "Cache and AsyncCache" + "validators {always, never, new > old, new mod 3 != old mod 3}, insert_if_present on absent / removed / expired-unswept / still-buffered keys; monitor: insert_if_present on a non-resident key leaves the snapshot bit-for-bit unchanged",
+        'assumptions': COMMON_ASSUMPTIONS,
+        'partial': "",
+    },
+    'C10': {
+        'suites': [('caches', 400, 4000, ''), ('cachesa', 200, 2000, '')],
+        'rule': CACHE_RULE % "Cache and AsyncCache" + "three client threads, random interleavings at every yield point (between store update and buffer send, inside the processor's item handling, around the stop handshakes), buffer sizes {1, 2, 3, 16}, wait / clear / close racing; blocked clients are diagnosed from state: a client that never comes back is a MONITOR hit; monitor: what a client sent before a wait() that returned Ok is resident or handed back",
+        'assumptions': COMMON_ASSUMPTIONS + ["weak fairness of select! for 'returns in finite time' (the theorem is: never stranded + the processor can always take the next item)"],
+        'partial': "finite-time return needs fairness of the randomised select!, which is an assumption about crossbeam / futures",
+    },
+    'C11': {
+        'suites': [('caches', 400, 4000, ''), ('cachesa', 200, 2000, ''), ('cachecfg', 100, 1000, '')],
+        'rule': CACHE_RULE % "Cache and AsyncCache" + "clear() issued with 0..buffer-size items buffered, select! arms as the implementation picks them, key re-use after clear with another TTL or none followed by ticks at the old bucket; monitors: values inserted before a completed clear() are not retrievable by lookups that began after it, empty cache at quiescence if nothing was inserted since",
+        'assumptions': COMMON_ASSUMPTIONS,
+        'partial': "",
+    },
+    'C12': {
+        'suites': [('caches', 400, 4000, ''), ('cachesa', 200, 2000, ''), ('cachecfg', 100, 1000, '')],
+        'rule': CACHE_RULE % "Cache and AsyncCache" + "close() racing other operations and other close() calls; monitors: after close() returned Ok every operation that begins is inert and leaves the snapshot unchanged, both workers have left their loops, no client is stuck",
+        'assumptions': COMMON_ASSUMPTIONS,
+        'partial': "OS thread exit and exit of workers when every handle is dropped without close() are runtime behaviour (observed by the harness: the worker leaves its loop), not theorems",
+    },
+    'C16': {
+        'suites': [('cachet', 400, 4000, ''), ('cacheqa', 150, 1500, '')],
+        'rule': CACHE_RULE % "Cache and AsyncCache" + "explicit costs including 0, costers {0, v mod 5 + 1, 7}, both ignore_internal_cost settings (item_size read through the facade), evictions, rejections, sweeps; monitors: charge of a resident value = cost (or coster) + overhead, callback costs equal that",
+        'assumptions': COMMON_ASSUMPTIONS + ["quiescence between writes to one key (the property's quantifier); a vetoed plain insert still re-charges the key (upstream behaviour, outside the quantifier)"],
+        'partial': "",
+    },
+    'C18': {
+        'suites': [('cachec', 300, 3000, ''), ('keys', 1, 1, '')],
+        'rule': CACHE_RULE % "Cache" + "a key builder that lets histories force index collisions (same index, conflict 1 / 2 / wildcard 0); monitor: a lookup never returns a value written under the other conflict; plus the 'keys' suite: TransparentKeyBuilder on every supported integer type (boundary, negative, random values) against the model, DefaultKeyBuilder determinism and String/&str agreement (tested, not modelled)",
+        'assumptions': COMMON_ASSUMPTIONS + ["DefaultKeyBuilder (seahash + seeded xxh64) and std::hash are not modelled: determinism and borrowed-form agreement are tested by the harness"],
+        'partial': "determinism of DefaultKeyBuilder is a test of an unmodelled function",
     },
 }
